@@ -151,3 +151,22 @@ package reg
 //@   in ~/scheme/reg
 //@   where manifest-cache: recv == caller.reg.cacheMan
 //@   requires key-is-digest-only-ref: key.Tag == ""
+
+// ---- C05: the chunk size the destination asks for is honoured ----
+// When the answer to the upload POST (plain or mount) carries OCI-Chunk-Min-Length, the chunk size
+// in effect for that host afterwards - the per-host setting when positive, else the client-wide
+// size - is at least the requested minimum (capped by the client's chunk limit): the per-host
+// setting OVERRIDES the client-wide one, it is not the larger of the two.
+// ($effChunk: the chunk size in effect for the host, sampled where the host settings are released)
+//@ ghost $effChunk int64
+//@ ghost $limitAt int64
+//@ func (*Reg).blobGetUploadURL(ctx, r, d) (u, err)
+//@   prop C05
+//@   on-call Unlock: $effChunk = ite(host.BlobChunk > 0, host.BlobChunk, reg.blobChunkSize)
+//@   on-call Unlock: $limitAt = reg.blobChunkLimit
+//@   ensures requested-minimum-chunk-honoured: err == nil && minSizeStr != "" && $ret(ParseInt, 1) == nil && $ret(ParseInt, 0) > 0 && $ret(ParseInt, 0) <= $limitAt ==> $effChunk >= $ret(ParseInt, 0)
+//@ func (*Reg).blobMount(ctx, rTgt, d, rSrc) (u, uuid, err)
+//@   prop C05
+//@   on-call Unlock: $effChunk = ite(host.BlobChunk > 0, host.BlobChunk, reg.blobChunkSize)
+//@   on-call Unlock: $limitAt = reg.blobChunkLimit
+//@   ensures requested-minimum-chunk-honoured: err == nil && minSizeStr != "" && $ret(ParseInt, 1) == nil && $ret(ParseInt, 0) > 0 && $ret(ParseInt, 0) <= $limitAt ==> $effChunk >= $ret(ParseInt, 0)
